@@ -666,7 +666,7 @@ def sparse_alternative_cosine(ind1, data1, ind2, data2):
 
 @numba.vectorize(fastmath=True, cache=True)
 def sparse_correct_alternative_cosine(d):
-    if isclose(0.0, abs(d), atol=1e-7) or d < 0.0:
+    if isclose(abs(d), 0.0, atol=1e-7) or d < 0.0:
         return 0.0
     else:
         return 1.0 - pow(2.0, -d)
@@ -811,7 +811,7 @@ def sparse_alternative_hellinger(ind1, data1, ind2, data2):
 
 @numba.vectorize(fastmath=True, cache=True)
 def sparse_correct_alternative_hellinger(d):
-    if isclose(0.0, abs(d), atol=1e-7) or d < 0.0:
+    if isclose(abs(d), 0.0, atol=1e-7) or d < 0.0:
         return 0.0
     else:
         return np.sqrt(1.0 - pow(2.0, -d))
